@@ -97,6 +97,7 @@ type fx struct {
 	retCount    int
 	warnings    []string
 	usedSpecs   map[string]bool
+	keepAllRegs []region
 	localRefs   []string // refs of non-escaping locals of this activation
 	curInstr    ssa.Instruction
 	ghostHavocIsUnmodelled bool
